@@ -201,7 +201,11 @@ func c17Close(p *chk.Prog, r *chk.Report) {
 		g := su.Graph()
 		for _, rt := range g.Returns() {
 			rr := retResults(rt)
-			if len(rr) == 1 && su.IsConstBool(rr[0], false) {
+			stop := len(rr) == 1 && su.IsConstBool(rr[0], false)
+			if len(rr) == 1 && !stop && isErrorTyped(su, rr[0]) && !su.IsNilLit(rr[0]) {
+				stop = true // "closed" reported as an error (run() stops on any error of sendUpdates)
+			}
+			if stop {
 				x.Check("sendUpdates:false-only-when-closed", rt.Pos(), g.Dominated(rt, g.GPat(true, "RECV.closed")), "", "the sender can stop for good although the session is not closed")
 			}
 		}
@@ -240,6 +244,10 @@ func c17Close(p *chk.Prog, r *chk.Report) {
 		}
 		ok2 := false
 		for _, e := range g.EdgesImplying(g.GPat(false, "RECV.sendUpdates()")) {
+			ok2 = !g.BranchAlways(e, func(n ast.Node) bool { _, isRet := n.(*ast.ReturnStmt); return isRet }).Found
+		}
+		// sendUpdates reporting "closed" as an error instead of false
+		for _, e := range g.EdgesImplying(g.GErrNil(false, "RECV.sendUpdates()")) {
 			ok2 = !g.BranchAlways(e, func(n ast.Node) bool { _, isRet := n.(*ast.ReturnStmt); return isRet }).Found
 		}
 		x.Check("run:stops-when-closed", rn.Pos(), ok && ok2, "", "run() keeps reconnecting after the session was closed")
